@@ -13,6 +13,7 @@ import (
 	"fmt"
 
 	gethcrypto "github.com/ethereum/go-ethereum/crypto"
+	"github.com/gauss-project/aurorafs/pkg/zzverif/keyalpha"
 	"golang.org/x/crypto/sha3"
 )
 
@@ -30,10 +31,31 @@ func (r Record) Clone() Record {
 // WitnessKey is a fourth key, never used for the record under test.
 var WitnessKey = bytes.Repeat([]byte{0x22}, 32)
 
+// Keys: three ordinary keys; init appends one boundary key per keyalpha class
+// (public X / Y / both with a leading zero byte, X / Y with two leading zero
+// bytes), where a variable-width encoding of the public key differs from the
+// fixed-width one the overlay derivation hashes.
 var Keys = [][]byte{
 	bytes.Repeat([]byte{0x11}, 32),
 	{0x63, 0x4f, 0xb5, 0xa8, 0x72, 0x39, 0x6d, 0x96, 0x93, 0xe5, 0xc9, 0xf9, 0xd7, 0x23, 0x3c, 0xfa, 0x93, 0xf3, 0x95, 0xc0, 0x93, 0x37, 0x10, 0x17, 0xff, 0x44, 0xaa, 0x9a, 0xe6, 0x56, 0x4c, 0xdd},
 	append(make([]byte, 31), 0x01), // scalar 1
+}
+
+var KeyNames = []string{"0x11..", "fixed test key", "scalar 1"}
+
+// InitErr is set when the bounded boundary-key search failed; harnesses abort as BROKEN.
+var InitErr error
+
+func init() {
+	ks, err := keyalpha.Boundary()
+	if err != nil {
+		InitErr = err
+		return
+	}
+	for _, k := range ks {
+		Keys = append(Keys, k.Priv)
+		KeyNames = append(KeyNames, fmt.Sprintf("%s (stream position %d)", k.Name, k.Index))
+	}
 }
 
 // Underlays carry a /p2p component because the handshake advertises full addresses.
@@ -173,10 +195,9 @@ func Ops(r Record, ki int, perByte bool) []Op {
 		}
 	}
 	ops = append(ops, Op{Kind: OpShiftBoundary, Pos: 0}, Op{Kind: OpShiftBoundary, Pos: 1})
-	for k := range Keys {
-		if k != ki {
-			ops = append(ops, Op{Kind: OpOtherOverlay, Pos: k}, Op{Kind: OpOtherSignature, Pos: k})
-		}
+	// overlay / signature of two other keys: the next and the previous one
+	for _, k := range []int{(ki + 1) % len(Keys), (ki + len(Keys) - 1) % len(Keys)} {
+		ops = append(ops, Op{Kind: OpOtherOverlay, Pos: k}, Op{Kind: OpOtherSignature, Pos: k})
 	}
 	return ops
 }
